@@ -23,5 +23,9 @@ def harnesses(ctx, tier):
         Harness(name="H3_write_error", src="c08/roundtrip.c", defines=["-DVF_MODE=3"], unwind=4, unwind_funcs=UF, timeout=900,
                 desc="a write error at an arbitrary write call during yr_arena_save_stream: reported, and the arena being saved stays usable",
                 bounds="failure at write call 0..8", functions=["yr_arena_save_stream"]),
+        Harness(name="H4_define_string_then_save", src="c08/define_save.c", unwind=6, timeout=600,
+                unwind_funcs={"strcmp": 4, "strlen": 4, "vf_wr": 100, "yr_arena_ptr_to_ref": 3, "memcpy": 100, "memcmp": 10},
+                desc="yr_rules_define_string_variable (real) followed by yr_arena_save_stream (real) on an arena holding a string external",
+                bounds="one string external, 1-character values", functions=["yr_rules_define_string_variable", "yr_arena_save_stream", "yr_arena_ptr_to_ref"]),
     ]
     return hs
